@@ -110,7 +110,7 @@ VARIANTS: list[Variant] = [
     # ---------------------------------------------------------------- C07 / C09
     V('b-is-negative-ext', 'break', ['C07', 'C09'], P, "        return bool(flags & NEGATE and pattern[0:1] in NEGATIVE_SYM and pattern[1:2] not in ROUND_BRACKET)", "        return bool(flags & NEGATE and pattern[0:1] in NEGATIVE_SYM)", 'is_negative', "fnmatch('x', '!(a)', N|E) becomes False"),
     V('b-negateall-default', 'break', ['C07'], P, "            positive.append(_compile(default, flags | (GLOBSTAR if flags & PATHNAME else 0)))", "            positive.append(_compile(default, flags))", 'negateall-default', "globmatch('a/b', '!x', N|A) becomes False"),
-    V('b-exclude-loop', 'break', ['C07'], M, "        if matched:\n            matched = True\n            if self.exclude:\n                for pattern in self.exclude:\n                    if pattern.fullmatch(self.filename):\n                        matched = False\n                        break", "        if matched:\n            matched = True\n            if self.exclude:\n                for pattern in self.exclude:\n                    if pattern.fullmatch(self.filename):\n                        matched = False\n                    else:\n                        matched = True", 'loop[self.exclude]', "order of exclusion patterns matters"),
+    V('b-exclude-loop', 'break', ['C07'], M, "        if matched:\n            matched = True\n            if self.exclude:\n                for pattern in self.exclude:\n                    if pattern.fullmatch(self.filename):\n                        matched = False\n                        break", "        if matched:\n            matched = True\n            if self.exclude:\n                for pattern in self.exclude:\n                    if pattern.fullmatch(self.filename):\n                        matched = False\n                    else:\n                        matched = True", '_Match.match/table', "order of exclusion patterns matters"),
     V('b-expand-order', 'break', ['C07'], P, "    for expanded in expand_braces(pattern, flags, limit):\n        for splitted in split(expanded, flags):\n            yield expand_tilde(splitted, is_unix_style(flags), flags)", "    for splitted in split(pattern, flags):\n        for expanded in expand_braces(splitted, flags, limit):\n            yield expand_tilde(expanded, is_unix_style(flags), flags)", 'nesting', "'{a|b,c}' with BRACE|SPLIT expands differently"),
     V('b-scanner-prologue', 'break', ['C07'], G, "        if c in ('!', '^'):\n            c = next(i)\n        if c == '[':\n            # A POSIX class is a unit: its `]` does not close the sequence\n            i.match(_wcparse.RE_POSIX)", "        if c == '!':\n            c = next(i)\n        if c == '[':\n            # A POSIX class is a unit: its `]` does not close the sequence\n            i.match(_wcparse.RE_POSIX)", 'closing-bracket-agreement', "glob('[^]/]x') is split inside the bracket"),
     V('b-escape-class', 'break', ['C09', 'C18'], P, "    re.compile(r'([-!~*?()\\[\\]|{}]|(?<!\\\\)(?:(?:[\\\\]{2})*)\\\\(?!\\\\))'),\n    re.compile(br'([-!~*?()\\[\\]|{}]|(?<!\\\\)(?:(?:[\\\\]{2})*)\\\\(?!\\\\))')\n)\n\nMAGIC_DEF", "    re.compile(r'([-!*?()\\[\\]|{}]|(?<!\\\\)(?:(?:[\\\\]{2})*)\\\\(?!\\\\))'),\n    re.compile(br'([-!~*?()\\[\\]|{}]|(?<!\\\\)(?:(?:[\\\\]{2})*)\\\\(?!\\\\))')\n)\n\nMAGIC_DEF", 'RE_MAGIC_ESCAPE', "escape('~') expands to the home directory under GLOBTILDE"),
@@ -156,7 +156,7 @@ VARIANTS: list[Variant] = [
     # ---------------------------------------------------------------- C18 / C19 / C20
     V('b-twin-bytes-half', 'break', ['C18', 'C09'], P, "RE_MAGIC = (\n    re.compile(r'([-!~*?(\\[|{\\\\])'),\n    re.compile(br'([-!~*?(\\[|{\\\\])')\n)", "RE_MAGIC = (\n    re.compile(r'([-!~*?(\\[|{\\\\])'),\n    re.compile(br'([-!*?(\\[|{\\\\])')\n)", 'RE_MAGIC', "bytes and str variants disagree"),
     V('b-twin-index', 'break', ['C18'], P, "    if isinstance(pattern, bytes):\n        ptype = util.BYTES\n    else:\n        ptype = util.UNICODE\n\n    drive_pat = RE_WIN_DRIVE[ptype]", "    if isinstance(pattern, bytes):\n        ptype = util.UNICODE\n    else:\n        ptype = util.UNICODE\n\n    drive_pat = RE_WIN_DRIVE[ptype]", 'RE_WIN_DRIVE[ptype]', "is_magic(b'c:/x', FORCEWIN) raises TypeError"),
-    V('b-latin1-codec', 'break', ['C18'], P, "            pattern = self._parse(self.pattern.decode('latin-1')).encode('latin-1')", "            pattern = self._parse(self.pattern.decode('latin-1')).encode('utf-8')", 'codec', "fnmatch(b'\\xe9', b'\\xe9') becomes False"),
+    V('b-latin1-codec', 'break', ['C18'], P, "            pattern = self._parse(self.pattern.decode('latin-1')).encode('latin-1')", "            pattern = self._parse(self.pattern.decode('latin-1')).encode('utf-8')", 'WcParse.parse/out', "fnmatch(b'\\xe9', b'\\xe9') becomes False"),
     V('b-literal-twin', 'break', ['C18'], P, "        replace = br'\\\\\\1'\n        slash = b'\\\\'", "        replace = br'\\\\\\1'\n        slash = b'/'", 'slash', "escape(b'a\\\\b') differs from escape('a\\\\b')"),
     V('b-module-cache', 'break', ['C19'], P, "def is_case_sensitive(flags: int) -> bool:\n    \"\"\"Is case sensitive.\"\"\"\n", "_CASE_MEMO = {}  # type: dict[int, bool]\n\n\ndef is_case_sensitive(flags: int) -> bool:\n    \"\"\"Is case sensitive.\"\"\"\n\n    if flags in _CASE_MEMO:\n        return _CASE_MEMO[flags]\n    _CASE_MEMO[flags] = bool(flags & FORCEUNIX)\n", 'module-state-writes', "results depend on call history"),
     V('b-cache-untyped', 'break', ['C19'], P, "@functools.lru_cache(maxsize=256, typed=True)", "@functools.lru_cache(maxsize=256)", '_compile/decorator', "cache key no longer separates argument types"),
